@@ -99,6 +99,9 @@ class ConfigList(ComposedNode, list):
     def remove(self, value):
         self._del(self.index(value))
 
+    def pop(self, index=-1):
+        return self._del(index)
+
     def clear(self):
         ComposedNode.ayns.clear(self)
         list.clear(self)
